@@ -177,6 +177,14 @@ void vegas_case(Rng& rng, bool plain)
     if (N > 40000) { count("skipped_too_large"); return; }
     ScriptEngine::current() = script;
     Lin lin = make_lin(rng, d);
+    bool huge = rng.below(6) == 0;
+    if (huge)
+    {
+        // values above sqrt(max): their squares overflow (the sum of squares legitimately becomes inf), the estimate itself stays exact
+        T S = std::ldexp(T(1), std::numeric_limits<T>::max_exponent / 2 + 2);
+        lin.a[0] *= S; lin.c[0] *= S;
+        count("lattices_with_values_above_sqrt_max");
+    }
     std::string gkind = "n/a";
     hep::vegas_pdf<T> pdf(d, bins);
     if (!plain) pdf = adapted_grid(rng, d, bins, gkind);
@@ -186,7 +194,7 @@ void vegas_case(Rng& rng, bool plain)
     ScriptEngine eng(script);
     LD I, est, scale;
     J info;
-    info.s("T", tname<T>::get()).s("integrator", plain ? "plain" : "vegas").u("dims", d).u("bins", bins).u("lattice_points", N).s("grid", gkind).b("bin_restricted", restricted)
+    info.s("T", tname<T>::get()).s("integrator", plain ? "plain" : "vegas").u("dims", d).u("bins", bins).u("lattice_points", N).s("grid", gkind).b("bin_restricted", restricted).b("values_above_sqrt_max", huge)
         .fv("a", lin.a).fv("c", lin.c);
     if (plain)
     {
